@@ -344,6 +344,10 @@ func genWCNF(t *rapid.T) WCNFCase {
 	}
 	if withTop {
 		c.Top = sum + 1 + rapid.IntRange(0, 2).Draw(t, "topSlack")
+		if gen.Chance(t, 1, 6, "bigTop") {
+			// the usual way of writing "hard": a top far above any sum of soft weights (the format allows weights below 2^63)
+			c.Top = rapid.SampledFrom([]int{1 << 20, 1<<31 - 1, 1 << 31, 1<<32 + 7, 1_000_000_000_000, 1<<62 + 12345}).Draw(t, "top")
+		}
 		for i, k := 0, rapid.IntRange(0, 3).Draw(t, "probes"); i < k; i++ {
 			c.Probes = append(c.Probes, uint64(gen.Uniform(t, 0, 127, "probe")))
 		}
@@ -653,7 +657,7 @@ func init() {
 	subOPB = vf.Sub[OPBCase]{Name: "opb", Quick: 10000, Thorough: 120000, Gen: genOPB, Check: checkOPB, Floor: 0.3,
 		Rule: "OPB text written from a PB problem (coefficients of either sign, >= / = / <= (as negated >=), trivially true/false constraints, optional min: line with signed coefficients) with layout knobs: '*' comments, explicit '+' or not, several blanks, CRLF, blank lines, optional final newline, and the zero-space forms the grammar allows ('>=0', '0;', 'min:+1'); oracle: parsed problem evaluated without solving has the text's models; Optimal = brute-force optimum; for up to 3 drawn assignments the text extended with unit constraints pinning the assignment yields exactly that assignment's cost, or Unsat when it violates a constraint; non-trivial as above"}
 	subWCNF = vf.Sub[WCNFCase]{Name: "wcnf", Quick: 8000, Thorough: 100000, Gen: genWCNF, Check: checkWCNF, Floor: 0.3,
-		Rule: "WCNF text (p wcnf V C [top], one weighted clause per line) with 'c' comments, several blanks, CRLF, optional final newline; oracle: Optimal = brute-force minimum weight of violated soft clauses; pinned assignments (unit hard clauses) give their exact cost or Unsat; non-trivial as above"}
+		Rule: "WCNF text (p wcnf V C [top], one weighted clause per line; top just above the sum of the soft weights, or, in a sixth of the cases, a large constant up to 2^62) with 'c' comments, several blanks, CRLF, optional final newline; oracle: Optimal = brute-force minimum weight of violated soft clauses; pinned assignments (unit hard clauses) give their exact cost or Unsat; non-trivial as above"}
 	subLong := vf.Sub[LongCase]{Name: "long-lines", Quick: 30, Thorough: 100, Gen: genLong, Check: checkLong, Floor: 0,
 		Rule: "texts with very long lines: DIMACS comment lines of 100 bytes to 80 KB (words, or numbers that would read as clauses) for both DIMACS readers, and lines of more than 64 KiB: an OPB objective / clause over 3000..9000 variables, a WCNF hard clause or a DIMACS clause (for explain.ParseCNF) whose literal list is repeated; and DIMACS texts of more than 128 KB whose 14000..24000 clauses are each written over several lines (both DIMACS readers); the meaning is known by construction (optimum = weight of the forced variables, or the smallest weight; clause list read back as written); non-trivial = the longest line exceeds 65536 bytes (4096 for comments)"}
 	vf.Register(subDimacsSolver, subDimacsExplain, subOPB, subWCNF, subLong)
